@@ -232,10 +232,11 @@ fn macro_expand(
     context: &Pass0Context,
     macroses: &HashMap<String, Vec<(CodePoint, String)>>,
 ) -> Result<Vec<Segment>, Error> {
+    let start_address = context.last_segment().unwrap().borrow().address;
     let segments = Rc::new(RefCell::new(vec![Rc::new(RefCell::new(Segment {
         items: vec![],
         t: SegmentType::Code,
-        address: context.last_segment().unwrap().borrow().address,
+        address: start_address,
     }))]));
     if let Some(macro_body) = macroses.get(macro_name) {
         let macro_body = if !ops.is_empty() {
@@ -285,12 +286,16 @@ fn macro_expand(
 
     // a segment directive or .org at the very end of the body opens a segment that holds
     // nothing yet: it is kept, what follows the call belongs there
+    // (a body that is nothing but an .org has moved its only segment: kept as well)
     let last = segments.borrow().len() - 1;
     let segments = segments
         .borrow()
         .iter()
         .enumerate()
-        .filter(|(i, x)| !x.borrow().is_empty() || (*i == last && *i > 0))
+        .filter(|(i, x)| {
+            !x.borrow().is_empty()
+                || (*i == last && (*i > 0 || x.borrow().address != start_address))
+        })
         .map(|(_, x)| x.borrow().clone())
         .collect();
 
